@@ -1442,14 +1442,9 @@ where
     T: Node + Clone,
 {
     fn set_named_item(&self, arg: T) -> error::Result<Option<T>> {
-        let name = arg.node_name();
-        if let Ok(v) = self.remove_named_item(name.as_str()) {
-            (self.add)(&self.node, arg)?; // FIXME: revert on failed.
-            Ok(Some(v))
-        } else {
-            (self.add)(&self.node, arg)?;
-            Ok(None)
-        }
+        // `add` replaces an item of the same name itself and reports it; removing that item here
+        // first lost it whenever `add` then refused the new one.
+        (self.add)(&self.node, arg)
     }
 
     fn remove_named_item(&self, name: &str) -> error::Result<T> {
